@@ -264,6 +264,20 @@ def sched_check(pid, tier, seed, t0):
         seq, _ = sched.tree_of_events(ob["events"])
         if sched.par_pairs(seq) or len(seq) > 1:
             nontrivial.add((c["k"], c["spec"], c["mode"], c["order"], c["pool"]))
+        # the decision tables were changed in the source: a pair of tasks that may overlap on this world according
+        # to the committed tables (the ones the theorems were proved about) but is now run one after the other is
+        # a schedule silently serialised (C12)
+        ref_tables = eng.get("ref_model") or (eng["model"] if str(eng.get("translator", "")).startswith("parse-failed") else None)
+        if pid == "C12" and ref_tables:
+            rm = ref_tables.get((c["k"], tuple(sorted(ob["shapes"]))))
+            if rm is not None:
+                have = {frozenset(p_) for p_ in sched.par_pairs(seq)}
+                want = {frozenset(p_) for p_ in sched.par_pairs(rm[1])}
+                lost = sorted(tuple(sorted(x)) for x in (want - have))
+                if lost and not any(i == vi for vi, _ in viol):
+                    viol.append((i, "tasks %s are allowed to overlap on this world by the decision tables the theorems were proved "
+                                    "about (coq/Gen/Tables.snapshot) but the implementation, whose tables now differ, ran them one "
+                                    "after the other: %s instead of %s" % (lost[:3], sched.show(seq), sched.show(rm[1]))))
         if eng["model"] is not None:
             q = (c["k"], tuple(sorted(ob["shapes"])))
             m = eng["model"].get(q)
@@ -733,13 +747,15 @@ def c15_sched_part(pid, tier, seed):
     n = 0
     with_res = 0
     for i, (c, ob) in enumerate(zip(cases, obs)):
-        if ob is None or "error" in ob:
+        if ob is None:
             continue
         n += 1
         if any(t["res"] for t in fam[c["k"]]):
             with_res += 1
         for (p, msg) in sched.oracle(c, ob, fam[c["k"]]):
-            if p == pid:
+            if p == pid or (p == "*" and any(t["res"] for t in fam[c["k"]])):
+                if p == "*":
+                    msg = "a schedule whose systems view resources made the harness die inside the library: " + msg
                 path = write_replay(pid, seed, {"property": pid, "kind": "failing-schedule-run", "message": msg,
                                                 "schedule_index": c["k"], "schedule": fam[c["k"]], "world": c["spec"],
                                                 "mode": c["mode"], "order": c["order"], "pool": c["pool"],
